@@ -372,13 +372,13 @@ impl<'a> Evaluator<'a> {
                     Ok(b) => Val::Bytes(b),
                     Err(_) => return abstain("unparsable byte literal"),
                 },
-                D::Symbol => Val::Sym(symbol_value(text.trim_start_matches(':'))),
+                D::Symbol => Val::Sym(symbol_value(text.trim_matches(':'))),
                 D::Unit => Val::Unit,
                 D::True => Val::True,
                 D::False => Val::False,
                 D::Value => self.dollar(),
-                D::Identifier => self.resolve(symbol_value(text))?,
-                D::Property => Val::Sym(symbol_value(text)),
+                D::Identifier => self.resolve(symbol_value(text.trim_matches(':')))?,
+                D::Property => Val::Sym(symbol_value(text.trim_matches(':'))),
                 _ => unreachable!(),
             };
             return self.with_attached(n, v);
@@ -588,14 +588,14 @@ impl<'a> Evaluator<'a> {
                 self.apply(Instruction::Apply, f, a)
             }
             D::PrefixApply | D::SuffixApply => {
-                let name = n.text().trim_matches('`');
+                let name = n.text().trim_matches('`').trim_matches(':');
                 let f = self.resolve(symbol_value(name))?;
                 let operand = if def == D::PrefixApply { self.child(n, false)? } else { self.child(n, true)? };
                 let a = self.eval(operand)?;
                 self.apply(Instruction::Apply, f, a)
             }
             D::InfixApply => {
-                let name = n.text().trim_matches('`');
+                let name = n.text().trim_matches('`').trim_matches(':');
                 let f = self.resolve(symbol_value(name))?;
                 let l = self.eval(self.child(n, true)?)?;
                 let r = self.eval(self.child(n, false)?)?;
